@@ -1,3 +1,6 @@
+#[cfg(tablegen_lsp_verif)]
+#[allow(unused_imports)]
+use crate::verif_hooks::std_shim as std;
 use async_lsp::lsp_types;
 use ide::{
     file_system::{FileRange, FileSystem},
